@@ -6,6 +6,13 @@ import Blue.Proofs.LogAny
 import Blue.Proofs.LogDamage
 import Blue.Proofs.LogZeroed
 import Blue.Proofs.ManiTorn
+import Blue.Proofs.ManiDamage
+import Blue.Proofs.LogFrameDamage
+import Blue.Proofs.LogZeroFrame
+import Blue.Proofs.LogFragment
+import Blue.Proofs.SstDamage
+import Blue.Proofs.SstDamageImage
+import Blue.Proofs.SstDamageExamples
 import Blue.Proofs.BlockBytes
 import Blue.Proofs.Crc32c
 import Blue.Proofs.ConstsTieC09
@@ -30,8 +37,9 @@ single-bit flip, every truncation, overwrites, suffixes, short sequences).
   "Never panics, never allocates without bound" is a property of the code that only the
   correspondence run transfers (each damaged file is read by the real code in a child process under
   an address-space limit, the largest allocation request of each read is recorded); the model adds
-  `open_sizes_bounded`: the buffers `from_file_handle` sizes from file bytes are checked against the
-  file size first.
+  `open_buffers_bounded` (the final block offset and the index / filter extents are checked against
+  the file size before the buffers are sized) and `data_block_buffers_bounded` (the extents
+  `load_block` allocates for the builder's index entries lie inside the file).
 * *Theorems, no assumption*: every entry any SST read returns comes from a block whose payload
   matched the CRC recorded for it (`sst_reads_are_guarded`, `open_guarded`); log reads before a damage
   point are unchanged, a frame failing its CRC is an error, a zero where a header length is expected
@@ -39,12 +47,25 @@ single-bit flip, every truncation, overwrites, suffixes, short sequences).
   byte was zeroed is an error wherever it lies (`zeroed_header_length_detected`; D-11, repaired in
   the reader), a truncated log / manifest reads as a prefix or an error; the classification of damage to the unchecksummed tail (`final_block_cases`);
   damage confined to the data blocks leaves the open as it was (`data_block_damage_opens`).
-* *Relative to "the CRC tells the damaged payload from the original"* (hypothesis `hnc` of
-  `refines_of_no_collision`, `NoCollision` of `torn_manifest`): every read of a table damaged behind
-  its checksums is an error or the pristine answer (`sst_single_burst`).  No theorem discharges the
-  hypothesis for CRC-32C here.  (For a single flipped bit it is a fact about the polynomial — the
-  difference of the two CRCs is the remainder of a monomial, and the generator has a constant term —
-  and the run observes it at every bit of every file; it is not formalised.)
+* *Relative to one explicit, decidable hypothesis about the checksum per damaged region*, at
+  full generality of the damage (ANY bytes inside the region, same length):
+  `sst_damage_detected_or_harmless` — the image the builder wrote (C10's `sst_file_roundtrip`),
+  damaged inside one data block's frame, the index block's frame, the filter block's frame
+  (`NoCollisionAt`: if the damaged file still shows a frame of the same kind there whose payload has
+  the original payload's CRC, it is the original payload) or the unchecksummed final block and
+  trailer (`NoRedirect`): `Sst::new` fails, or every cursor program, `load`, `metadata` and walk
+  returns an error or exactly the reference answer, calls before the first touch of the damaged
+  block returning the reference answer; truncation and extension (`sst_truncated_rejected_or_same`,
+  `sst_extended_rejected_or_same`).  `log_damage_detected_or_prefix` — one append of a log damaged
+  in the payload of a frame (`crc payload' ≠ crc payload`), in a frame's header (a header naming
+  other bytes or another checksum fails its CRC check; the discriminant, which no checksum covers,
+  is not swapped between `WHOLE` and `FIRST`) or in a padding run: the batches appended before it,
+  then an error, the replay fails — or nothing changed; `crc_field_damage_detected` needs no
+  hypothesis.  `manifest_damage_detected_or_prefix` — one line replaced by any bytes
+  (`LineCrcDetects`: the line does not carry the CRC of its own text): the edits before the damaged
+  transaction, then an error; `separator_damage_detected`, `final_newline_damage_detected` need no
+  hypothesis.  No theorem discharges the hypotheses for CRC-32C.  (For a single flipped bit it is a
+  fact about the polynomial, observed at every bit of every file by the run; not formalised.)
 * *Not detected, by design of the formats* (findings, see the run's KNOWN-FINDING lines):
   `final_block_metadata_not_detected` (D-10).  (D-11 — the log reader took a zeroed header-length
   byte close to a block boundary for padding and dropped the frame — is repaired:
@@ -62,10 +83,10 @@ theorem constants_from_source :
         = Blue.Generated.blockMetadataFields.zip Blue.Generated.blockMetadataTypes
     ∧ Blue.Generated.sstTrailerBytes = 8
     ∧ Blue.Damage.replayPropagatesErrors = decide (Blue.Generated.logReplayUnwraps = 0)
-    ∧ Blue.Generated.maniNonAsciiPoisons = 0 :=
+    ∧ Blue.Generated.maniNonAsciiPoisons = 1 :=
   ⟨Blue.ConstsTie.c09_error_codes, Blue.ConstsTie.c09_schemas.1, Blue.ConstsTie.c09_schemas.2.1,
    Blue.ConstsTie.c09_schemas.2.2.2, Blue.ConstsTie.c09_replay_propagates,
-   Blue.ConstsTie.c09_mani_non_ascii_does_not_poison⟩
+   Blue.ConstsTie.c09_mani_non_ascii_poisons⟩
 
 /-! ## SST -/
 
@@ -106,15 +127,33 @@ theorem block_load_is_checked (crc : List Nat → Nat) (file : List Nat) (m : Bl
     ∃ body, frameAt file m = .ok (0, body) ∧ crc body = m.crc ∧ decodePlain body = .ok es :=
   Blue.SstOpen.loadBlock_ok crc h
 
-/-- allocation: the buffers sized from the file's own bytes before any checksum can be looked at
-    (final block, index block, filter block) are no longer than the file -/
-theorem open_sizes_bounded (file : List Nat) (fin : Fin)
-    (hfbo : unle64 (file.drop (file.length - 8)) ≤ file.length)
-    (hchk : finChecks fin (unle64 (file.drop (file.length - 8))) = none) :
-    file.length - unle64 (file.drop (file.length - 8)) ≤ file.length
-    ∧ fin.index.limit - fin.index.start ≤ file.length
-    ∧ fin.filter.limit - fin.filter.start ≤ file.length :=
-  Blue.SstOpen.open_sizes_bounded file fin hfbo hchk
+/-- allocation: what `from_file_handle` allocates before any checksum can be looked at.  The final
+    block buffer has `file_size − final_block_offset` bytes — meaningful because the offset was checked
+    against the file size first (first conjunct); the index and the filter block buffers have
+    `limit − start` bytes, which the ordering checks bound by the file size.  (`load_block` allocates
+    `limit − start` of an INDEX ENTRY before it reads: `data_block_buffers_bounded` bounds it for the
+    builder's index entries, which are the index entries of every damaged image the region theorems
+    accept; a forged, CRC-consistent index block is bounded by nothing — see `partial`.) -/
+theorem open_buffers_bounded (crc : List Nat → Nat) (file : List Nat) (t : Opened) (h : openSst crc file = .ok t) :
+    unle64 (file.drop (file.length - 8)) ≤ file.length
+    ∧ t.fin.index.limit - t.fin.index.start ≤ file.length
+    ∧ t.fin.filter.limit - t.fin.filter.start ≤ file.length :=
+  Blue.SstOpen.open_buffers_bounded crc file t h
+
+/-- the extents `load_block` allocates for the data blocks of a builder-written image: non-empty,
+    below the index block, no longer than the file -/
+theorem data_block_buffers_bounded (blocks : List (List Nat)) (index filter : List Nat) (fin : Final) (D : List KV)
+    (hfi : fin.index = ⟨(blocks.flatMap (frame SE_PLAIN)).length,
+      (blocks.flatMap (frame SE_PLAIN)).length + (frame SE_PLAIN index).length, crc32c index⟩) :
+    ∀ km ∈ (imgT blocks index filter fin D).entries,
+      km.2.start < km.2.limit ∧ km.2.limit ≤ (blocks.flatMap (frame SE_PLAIN)).length
+      ∧ km.2.limit - km.2.start ≤ (imageOf blocks index filter fin).length :=
+  Blue.SstOpen.image_block_extents blocks index filter fin D hfi
+
+/-- a block that loads lies inside the file -/
+theorem loaded_block_in_file (crc : List Nat → Nat) (file : List Nat) (m : BlockMeta) (es : List KV)
+    (h : loadBlock crc file m = .ok es) : m.start < m.limit ∧ m.limit ≤ file.length :=
+  Blue.SstOpen.loadBlock_in_file crc h
 
 /-- **detection relative to the checksum, one block**: the same index entry read from the pristine
     and from the damaged file.  If the damaged read succeeds at all, and the CRC tells the two
@@ -157,12 +196,16 @@ theorem data_block_damage_opens (crc : List Nat → Nat) (f : List Nat) (t : Ope
     openSst crc (Blue.Damage.applyAll f ds) = .ok { t with file := Blue.Damage.applyAll f ds } :=
   Blue.Damage.data_block_damage_opens crc f t h a ha ha8 ds hds
 
-/-- **final_block_cases**: the decidable classification (`classifyFinal`: run the open, compare the
-    index triple) of *any* replacement of the file's tail — final block, trailer, other length —
-    while the first `a` bytes (index block and data blocks) stay: rejected; or the same index
-    entries and the same data blocks, so that only `setsum` / `smallest_timestamp` /
-    `biggest_timestamp` / the file size can differ; or a different index triple whose payload
-    matches the CRC that very triple records (excluded only by the CRC assumption). -/
+/-- **final_block_cases** (kept; `sst_tail_cases` below refines it): the classification
+    (`classifyFinal`: run the open, compare the INDEX triple — so the `detected` branch holds by
+    definition, the content is in the other two) of *any* replacement of the file's tail while the
+    first `a` bytes (index block and data blocks) stay: rejected; or the same index entries and the
+    same data blocks (`metaOnly`: the FILTER triple may still differ here — `sst_tail_cases` splits
+    that case off; with the same filter triple only `setsum` / `smallest_timestamp` /
+    `biggest_timestamp` / the file size can differ); or a different index triple whose payload matches
+    the CRC that very triple records.  No theorem excludes the redirected cases: the triple and its
+    CRC are both read from the unchecksummed tail, so this is not a statement about CRC collisions;
+    it is the hypothesis `NoRedirect` of the tail theorems. -/
 theorem final_block_cases (crc : List Nat → Nat) (f f' : List Nat) (t : Opened) (h : openSst crc f = .ok t)
     (a : Nat) (ha : a ≤ f.length) (ha' : a ≤ f'.length) (hhead : ∀ i, i < a → f'[i]? = f[i]?)
     (hidx : t.fin.index.limit ≤ a) (hdata : ∀ km ∈ t.entries, km.2.limit ≤ a) :
@@ -175,7 +218,10 @@ theorem final_block_cases (crc : List Nat → Nat) (f f' : List Nat) (t : Opened
   Blue.SstOpen.final_block_cases crc f f' t h a ha ha' hhead hidx hdata
 
 /-- in the `metaOnly` case (same length) every walk and point read is the pristine one and
-    `metadata` is the pristine one with the damaged final block's three fields put in -/
+    `metadata` is the pristine one with the damaged final block's three fields put in.  (The model
+    does not interpret the bloom filter; that the filter consulted is the original one is the
+    conjunct `frameAt d t'.fin.filter = frameAt f t.fin.filter` of `sst_tail_damage` /
+    `sst_damage_detected_or_harmless`.) -/
 theorem meta_only_reads (crc : List Nat → Nat) (t t' : Opened) (hent : t'.entries = t.entries)
     (hlen : t'.file.length = t.file.length) (hload : ∀ i, t'.loadIdx crc i = t.loadIdx crc i) :
     t'.forward crc = t.forward crc ∧ t'.backward crc = t.backward crc
@@ -204,7 +250,8 @@ theorem sealed_bytes_decode (o : Opts) (es : List KV) (hwf : ∀ e ∈ es, e.Wf)
     ∃ blk, Blk.new (build o es).seal = .ok blk ∧ blk.toDBlock = some ⟨es, (buildG o es).ridx⟩ :=
   toDBlock_seal o es hwf hfit
 
-/-- totality of the SST reader (by construction; stated for the record) -/
+/-- totality of the SST reader: a fact about the MODEL (a case split on the reader's result type;
+    every reader of the model is a total function) — for the code, "never panics" is an observation -/
 theorem sst_open_total (crc : List Nat → Nat) (file : List Nat) :
     (∃ e, openSst crc file = .error e) ∨ ∃ t, openSst crc file = .ok t :=
   Blue.SstOpen.openSst_total crc file
@@ -220,8 +267,8 @@ theorem reads_agree_before_damage {P : Params} (hB : 0 < P.B) (f f' : List Nat) 
   Blue.Log.reads_agree_before_damage hB f f' m hsame fuel off r h hm
 
 open Blue.Log in
-/-- **log_frame_guarded**: a frame whose payload does not match its header's CRC is an error, never
-    a batch -/
+/-- lemma (one branch of `nextFrame`'s definition; used by the damage theorems below): a frame whose
+    payload does not match its header's CRC is an error, never a batch -/
 theorem crc_mismatch_is_error {P : Params} (file : List Nat) (fuel off : Nat) (hd : Hdr) (off' : Nat)
     (hh : nextHeader P file fuel off = .ok (hd, off'))
     (hbad : P.crc (slice file off' hd.size) ≠ hd.crc) : nextFrame P file fuel off = .err :=
@@ -241,8 +288,8 @@ theorem readSome_take_prefix {P : Params} (file : List Nat) (n fuel off : Nat) :
   Blue.Log.readSome_take_prefix file n fuel off
 
 open Blue.Log in
-/-- **a zero where a header length is expected is padding only if everything up to the block
-    boundary is zero**: within `HEADER_MAX_SIZE` of the boundary the reader reads the bytes it is
+/-- lemma (one branch of `nextHeader`'s definition): **a zero where a header length is expected is
+    padding only if everything up to the block boundary is zero**: within `HEADER_MAX_SIZE` of the boundary the reader reads the bytes it is
     about to skip and goes on at the boundary when those the file has are all zero; farther from
     the boundary the zero is an error -/
 theorem zero_length_is_checked_padding (P : Params) (file : List Nat) (fuel off : Nat) (h0 : file[off]? = some 0) :
@@ -327,9 +374,506 @@ theorem mani_line_guarded (crc : List Nat → Nat) (line : List Nat) (h : parseL
     ∃ expected, parseHex8 (line.take 8) = some expected ∧ crc (line.drop 8) = expected :=
   Blue.Damage.item_line_guarded crc line h hs
 
+/-! ## SST: damage of any shape inside one region -/
+
+/-- a block read through a damaged frame is an error or the original entries — the one place the
+    hypothesis about the checksum (`NoCollisionAt`) is used -/
+theorem block_frame_damage (crc : List Nat → Nat) (f d : List Nat) (m : BlockMeta) (es : List KV)
+    (hp : loadBlock crc f m = .ok es) (hnc : NoCollisionAt crc f d m) :
+    (∃ e, loadBlock crc d m = .error e) ∨ loadBlock crc d m = .ok es :=
+  Blue.SstOpen.loadBlock_damaged crc hp hnc
+
+/-- **a data block's frame** (tag, length, payload), any opened file: the open is unchanged (blocks
+    are loaded lazily), every other block loads as before, block `i` loads as before or fails, every
+    read is an error or the pristine answer -/
+theorem sst_data_frame_damage (crc : List Nat → Nat) (f d : List Nat) (t : Opened) (h : openSst crc f = .ok t)
+    (i : Nat) (k : List Nat) (m : BlockMeta) (hi : t.entries[i]? = some (k, m))
+    (hbelow : m.limit ≤ t.fin.index.start) (h8 : m.limit + 8 ≤ f.length)
+    (hdisj : ∀ (j : Nat) k' m', j ≠ i → t.entries[j]? = some (k', m') → m'.limit ≤ m.start ∨ m.limit ≤ m'.start)
+    (hagree : AgreeOutside f d m.start m.limit)
+    (hpristine : ∃ es, loadBlock crc f m = .ok es)
+    (hnc : NoCollisionAt crc f d m) :
+    openSst crc d = .ok { t with file := d }
+    ∧ (∀ j, j ≠ i → Opened.loadIdx crc { t with file := d } j = t.loadIdx crc j)
+    ∧ ((∃ e, Opened.loadIdx crc { t with file := d } i = .error e)
+        ∨ Opened.loadIdx crc { t with file := d } i = t.loadIdx crc i)
+    ∧ ReadsErrOrSame crc t { t with file := d } :=
+  Blue.SstOpen.sst_data_frame_damage crc f d t h i k m hi hbelow h8 hdisj hagree hpristine hnc
+
+/-- **any damage below the index block** — several data blocks at once, frames and all (the
+    composition of `data_block_damage_opens`, `refines_of_no_collision` and `sst_single_burst`, for
+    arbitrary bytes and arbitrary cursor programs), `NoCollisionAt` for every index entry: the file
+    opens as before and every read is an error or the pristine answer -/
+theorem sst_data_region_damage (crc : List Nat → Nat) (f d : List Nat) (t : Opened) (h : openSst crc f = .ok t)
+    (a : Nat) (ha : a ≤ t.fin.index.start) (ha8 : a + 8 ≤ f.length)
+    (hagree : AgreeOutside f d 0 a)
+    (hpristine : ∀ (i : Nat) k m, t.entries[i]? = some (k, m) → ∃ es, loadBlock crc f m = .ok es)
+    (hnc : ∀ (i : Nat) k m, t.entries[i]? = some (k, m) → NoCollisionAt crc f d m) :
+    openSst crc d = .ok { t with file := d } ∧ ReadsErrOrSame crc t { t with file := d } :=
+  Blue.SstOpen.sst_data_region_damage crc f d t h a ha ha8 hagree hpristine hnc
+
+/-- **the index block's frame**: the open fails, or everything is as it was -/
+theorem sst_index_frame_damage (crc : List Nat → Nat) (f d : List Nat) (t : Opened) (h : openSst crc f = .ok t)
+    (h8 : t.fin.index.limit + 8 ≤ f.length)
+    (hdata : ∀ km ∈ t.entries, km.2.limit ≤ t.fin.index.start ∨ t.fin.index.limit ≤ km.2.start)
+    (hagree : AgreeOutside f d t.fin.index.start t.fin.index.limit)
+    (hnc : NoCollisionAt crc f d t.fin.index) :
+    (∃ e, openSst crc d = .error e)
+    ∨ (openSst crc d = .ok { t with file := d }
+        ∧ (∀ j, Opened.loadIdx crc { t with file := d } j = t.loadIdx crc j)
+        ∧ ReadsErrOrSame crc t { t with file := d }) :=
+  Blue.SstOpen.sst_index_frame_damage crc f d t h h8 hdata hagree hnc
+
+/-- **the filter block's frame**: the open fails, or the filter bytes are the original ones and
+    everything is as it was -/
+theorem sst_filter_frame_damage (crc : List Nat → Nat) (f d : List Nat) (t : Opened) (h : openSst crc f = .ok t)
+    (h8 : t.fin.filter.limit + 8 ≤ f.length)
+    (hdata : ∀ km ∈ t.entries, km.2.limit ≤ t.fin.filter.start ∨ t.fin.filter.limit ≤ km.2.start)
+    (hagree : AgreeOutside f d t.fin.filter.start t.fin.filter.limit)
+    (hnc : NoCollisionAt crc f d t.fin.filter) :
+    (∃ e, openSst crc d = .error e)
+    ∨ (openSst crc d = .ok { t with file := d }
+        ∧ (∃ b, frameAt f t.fin.filter = .ok (1, b) ∧ frameAt d t.fin.filter = .ok (1, b))
+        ∧ (∀ j, Opened.loadIdx crc { t with file := d } j = t.loadIdx crc j)
+        ∧ ReadsErrOrSame crc t { t with file := d }) :=
+  Blue.SstOpen.sst_filter_frame_damage crc f d t h h8 hdata hagree hnc
+
+/-- **the unchecksummed tail, any length** (refines `final_block_cases`: the filter triple is looked
+    at too): rejected; metadata-only (D-10); or redirected to a filter or index frame matching the
+    CRC the damaged tail itself records for it -/
+theorem sst_tail_cases (crc : List Nat → Nat) (f f' : List Nat) (t : Opened) (h : openSst crc f = .ok t)
+    (a : Nat) (ha : a ≤ f.length) (ha' : a ≤ f'.length) (hhead : ∀ i, i < a → f'[i]? = f[i]?)
+    (hidx : t.fin.index.limit ≤ a) (hdata : ∀ km ∈ t.entries, km.2.limit ≤ a) :
+    match classifyTail crc t f' with
+    | .detected e => openSst crc f' = .error e
+    | .metaOnly => ∃ t', openSst crc f' = .ok t' ∧ t'.fin.index = t.fin.index ∧ t'.fin.filter = t.fin.filter
+        ∧ t'.entries = t.entries ∧ ∀ i, t'.loadIdx crc i = t.loadIdx crc i
+    | .filterRedirected => ∃ t', openSst crc f' = .ok t' ∧ t'.fin.index = t.fin.index
+        ∧ t'.entries = t.entries ∧ (∀ i, t'.loadIdx crc i = t.loadIdx crc i)
+        ∧ t'.fin.filter ≠ t.fin.filter
+        ∧ ∃ body, frameAt f' t'.fin.filter = .ok (1, body) ∧ crc body = t'.fin.filter.crc
+    | .indexRedirected => ∃ t', openSst crc f' = .ok t' ∧ t'.fin.index ≠ t.fin.index
+        ∧ ∃ body, frameAt f' t'.fin.index = .ok (0, body) ∧ crc body = t'.fin.index.crc :=
+  Blue.SstOpen.sst_tail_cases crc f f' t h a ha ha' hhead hidx hdata
+
+/-- a file cut below the end of its filter block is rejected or redirected -/
+theorem sst_truncated_below_filter (crc : List Nat → Nat) (f : List Nat) (t : Opened) (h : openSst crc f = .ok t)
+    (n : Nat) (hn : n < t.fin.filter.limit) :
+    (∃ e, openSst crc (f.take n) = .error e)
+    ∨ ∃ t', openSst crc (f.take n) = .ok t' ∧ t'.fin.filter ≠ t.fin.filter
+        ∧ ∃ body, frameAt (f.take n) t'.fin.filter = .ok (1, body) ∧ crc body = t'.fin.filter.crc :=
+  Blue.SstOpen.sst_truncated_below_filter crc f t h n hn
+
+section builder
+variable (crc : List Nat → Nat) (o : SstOpts) (atts : List KV) (filter setsum : List Nat) (f : SstFile) (s1 : SB)
+  (hs1 : sealedState o (SB.putAll o SB.init atts).2 = .ok s1)
+  (hseal : (SB.putAll o SB.init atts).2.seal o filter setsum = .ok f)
+  (hts : ∀ e ∈ atts, e.ts ≤ Blue.Block.U64MAX)
+  (hwfE : ∀ e ∈ (SB.putAll o SB.init atts).2.accepted, e.Wf) (hwfD : ∀ d ∈ s1.divE, d.Wf)
+  (hfitE : ∀ es ∈ s1.cutE, Fits (build o.blk es)) (hfitD : Fits (build o.blk s1.divE))
+  (hsetsum : setsum.length = 32)
+  (hfilter : filter.length = filterLen (SB.putAll o SB.init atts).2.count o.bloomBits)
+  (hsize : f.bytes.length < Blue.Wire.U64)
+  (hcrc : ∀ b, b ∈ f.index :: f.filter :: f.blocks → crc b = crc32c b ∧ crc32c b < 4294967296)
+include hs1 hseal hts hwfE hwfD hfitE hfitD hsetsum hfilter hsize hcrc
+
+/-- **sst_damage_detected_or_harmless**: the image the builder wrote, damaged in ANY way inside one
+    tile `r` (`SstRegion`: a data block's frame, the index block's frame, the filter block's frame,
+    or the final block with the trailer), same length, under that tile's hypothesis about the
+    checksum (`SstRegion.Hyp`: `NoCollisionAt` for the frame, `NoRedirect` for the tail).
+    `Sst::new` fails, or every cursor program, `load`, `metadata` and walk on the table it returns
+    is an error or exactly the reference answer over the accepted entries (`ErrOrReference`; for the
+    tail `metadata`'s setsum and two timestamps are the damaged final block's: D-10); the filter block
+    that table consults is the one the builder wrote, byte for byte. -/
+theorem sst_damage_detected_or_harmless (d : List Nat) (r : SstRegion) (hv : r.Valid f)
+    (hagree : AgreeOutside f.bytes d (r.extent f).1 (r.extent f).2) (hyp : r.Hyp crc f d) :
+    (∃ e, openSst crc d = .error e)
+    ∨ ∃ t', openSst crc d = .ok t'
+        ∧ frameAt d t'.fin.filter = frameAt f.bytes f.fin.filter
+        ∧ ErrOrReference crc (SB.putAll o SB.init atts).2.accepted
+            ⟨setsum,
+             (match (SB.putAll o SB.init atts).2.accepted.head? with | some e => e.key | none => []),
+             (match (SB.putAll o SB.init atts).2.accepted.getLast? with | some e => e.key | none => MAX_KEY),
+             f.fin.smallest, f.fin.biggest, f.bytes.length⟩
+            (decide (r = .tail)) t' :=
+  Blue.SstOpen.sst_damage_detected_or_harmless crc o atts filter setsum f s1 hs1 hseal hts hwfE hwfD hfitE hfitD
+    hsetsum hfilter hsize hcrc d r hv hagree hyp
+
+/-- **the tail replaced by bytes of any length** (damage, a cut inside the final block, bytes
+    appended after the trailer): rejected, or the same table resized -/
+theorem sst_tail_replaced (d : List Nat) (hd : f.fin.filter.limit ≤ d.length)
+    (hhead : ∀ i, i < f.fin.filter.limit → d[i]? = f.bytes[i]?) (hnr : SstRegion.Hyp crc f d .tail) :
+    (∃ e, openSst crc d = .error e)
+    ∨ ∃ t', openSst crc d = .ok t' ∧ t'.fileSize = d.length ∧ t'.fin.index = f.fin.index ∧ t'.fin.filter = f.fin.filter
+        ∧ frameAt d t'.fin.filter = frameAt f.bytes f.fin.filter
+        ∧ SameTableResized crc (SB.putAll o SB.init atts).2.accepted t' :=
+  Blue.SstOpen.sst_tail_replaced crc o atts filter setsum f s1 hs1 hseal hts hwfE hwfD hfitE hfitD
+    hsetsum hfilter hsize hcrc d hd hhead hnr
+
+/-- **sst_truncated_rejected_or_same**: the image cut at any length -/
+theorem sst_truncated_rejected_or_same (n : Nat) (hnr : SstRegion.Hyp crc f (f.bytes.take n) .tail) :
+    (∃ e, openSst crc (f.bytes.take n) = .error e)
+    ∨ (f.fin.filter.limit ≤ n ∧ ∃ t', openSst crc (f.bytes.take n) = .ok t' ∧ t'.fileSize = (f.bytes.take n).length
+        ∧ SameTableResized crc (SB.putAll o SB.init atts).2.accepted t') :=
+  Blue.SstOpen.sst_truncated_rejected_or_same crc o atts filter setsum f s1 hs1 hseal hts hwfE hwfD hfitE hfitD
+    hsetsum hfilter hsize hcrc n hnr
+
+/-- **sst_extended_rejected_or_same**: bytes appended after the trailer (which the code reads from
+    the END of the file): rejected, or accepted as the same table resized — with whatever setsum and
+    timestamps the appended bytes carry if they parse as a final block naming the original index and
+    filter triples (D-10) -/
+theorem sst_extended_rejected_or_same (sfx : List Nat) (hnr : SstRegion.Hyp crc f (f.bytes ++ sfx) .tail) :
+    (∃ e, openSst crc (f.bytes ++ sfx) = .error e)
+    ∨ ∃ t', openSst crc (f.bytes ++ sfx) = .ok t' ∧ t'.fileSize = f.bytes.length + sfx.length
+        ∧ SameTableResized crc (SB.putAll o SB.init atts).2.accepted t' :=
+  Blue.SstOpen.sst_extended_rejected_or_same crc o atts filter setsum f s1 hs1 hseal hts hwfE hwfD hfitE hfitD
+    hsetsum hfilter hsize hcrc sfx hnr
+
+end builder
+
+/-- non-vacuity on the bytes of a real SST (kernel evaluation): for one flipped bit in a data block,
+    in the index block's payload and frame header, in the filter block, in the setsum and in the
+    trailer the hypotheses of the region theorems hold together and the outcome is the one they allow;
+    cuts are rejected; the final block appended once more is the same table resized -/
+theorem sst_region_witnesses :
+    Blue.DamageExamples.dataCheck = true ∧ Blue.DamageExamples.indexFilterCheck = true
+    ∧ Blue.DamageExamples.tailCheck = true ∧ Blue.DamageExamples.resizeCheck = true :=
+  ⟨Blue.DamageExamples.data_witness, Blue.DamageExamples.index_filter_witness,
+   Blue.DamageExamples.tail_witness, Blue.DamageExamples.resize_witness⟩
+
+/-- the four checks the detection theorems lean on are in the source as the models state them -/
+theorem detection_checks_in_source :
+    Blue.Generated.sstBlockCrcMismatchIsError = 1 ∧ Blue.Generated.sstFilterCrcMismatchIsError = 1
+    ∧ Blue.Generated.logShortPayloadIsError = 1
+    ∧ Blue.Generated.logTrueUpBound = "HEADER_MAX_SIZE" ∧ Blue.Generated.logTrueUpChecksZero = 1
+    ∧ Blue.Generated.maniSeparatorExact = 1 :=
+  Blue.ConstsTie.c09_detection_checks_in_source
+
+/-! ## log: damage of any shape inside one region of one append -/
+section logdamage
+open Blue.Log Blue.Damage
+variable {P : Params}
+
+/-- **payload of a frame** (`WHOLE`, `FIRST` or `SECOND`, with or without leading padding): the
+    batches appended before, then an error.  The only hypothesis about the checksum: the damaged
+    payload bytes do not have the original payload's CRC. -/
+theorem log_payload_damage_detected (g : Good P) (bufs1 : List (List Nat)) (b : List Nat) (bufs2 : List (List Nat))
+    (hsz : ∀ x ∈ bufs1, x.length ≤ P.tableFull) (hb : b.length ≤ P.tableFull) (d : List Nat)
+    (s disc : Nat) (p : List Nat) (hmem : (s, disc, p) ∈ framesOf P 2 (writeAll P bufs1 0).length b)
+    (hag : ∀ i, i < payOff P s disc p → d[i]? = (writeAll P (bufs1 ++ b :: bufs2) 0)[i]?)
+    (hcrc : P.crc (slice d (payOff P s disc p) p.length) ≠ P.crc p) (k : Nat) :
+    readSome P d (bufs1.length + 1 + k) 0 = (bufs1, true) :=
+  Blue.Log.log_payload_damage_detected g bufs1 b bufs2 hsz hb d s disc p hmem hag hcrc k
+
+/-- **header-length byte and header of a frame**: `hnc` — a header that names other payload bytes or
+    another checksum fails its CRC check; `hne` — the frame was not turned into padding that runs to
+    the end of the file; `hdisc` — the discriminant, which no checksum covers, was not turned from
+    `WHOLE` into `FIRST` or back (`disc_outside_checksum`: it cannot be dropped).  The batches before
+    and an error — or the bytes still decode to the header that was written and the file reads as
+    the pristine one. -/
+theorem log_header_damage_detected (g : Good P) (bufs1 : List (List Nat)) (b : List Nat) (bufs2 : List (List Nat))
+    (hsz : ∀ x ∈ bufs1, x.length ≤ P.tableFull) (hb : b.length ≤ P.tableFull)
+    (d : List Nat) (hlen : d.length = (writeAll P (bufs1 ++ b :: bufs2) 0).length)
+    (s disc : Nat) (p : List Nat) (hmem : (s, disc, p) ∈ framesOf P 2 (writeAll P bufs1 0).length b)
+    (hag : ∀ i, i < s ∨ payOff P s disc p ≤ i → d[i]? = (writeAll P (bufs1 ++ b :: bufs2) 0)[i]?)
+    (hnc : ∀ h' o', nextHeader P d 2 s = .ok (h', o') → o' + h'.size ≤ d.length →
+      (o' = payOff P s disc p ∧ h'.size = p.length ∧ h'.crc = P.crc p) ∨ P.crc (slice d o' h'.size) ≠ h'.crc)
+    (hne : disc ≠ SECOND → nextHeader P d 2 s ≠ .eof)
+    (hdisc : disc ≠ SECOND → ∀ h' o', nextHeader P d 2 s = .ok (h', o') →
+      h'.disc = disc ∨ (h'.disc ≠ WHOLE ∧ h'.disc ≠ FIRST)) :
+    (∀ k, readSome P d (bufs1.length + 1 + k) 0 = (bufs1, true))
+    ∨ (nextHeader P d 2 s = .ok (⟨p.length, disc, P.crc p⟩, payOff P s disc p)
+        ∧ ∀ n, readSome P d n 0 = readSome P (writeAll P (bufs1 ++ b :: bufs2) 0) n 0) :=
+  Blue.Log.log_header_damage_detected g bufs1 b bufs2 hsz hb d hlen s disc p hmem hag hnc hne hdisc
+
+/-- **a padding run** with a non-zero byte in it (`hhdr`: leading padding whose first byte became a
+    header length is read as a header, which must fail its CRC: `padding_injection`) -/
+theorem log_padding_damage_detected (g : Good P) (bufs1 : List (List Nat)) (b : List Nat) (bufs2 : List (List Nat))
+    (hsz : ∀ x ∈ bufs1, x.length ≤ P.tableFull) (hb : b.length ≤ P.tableFull) (d : List Nat) (lo hi : Nat)
+    (hmem : (lo, hi) ∈ padRunsOf P (writeAll P bufs1 0).length (framesOf P 2 (writeAll P bufs1 0).length b))
+    (hag : ∀ i, i < lo → d[i]? = (writeAll P (bufs1 ++ b :: bufs2) 0)[i]?)
+    (hnz : ∃ i x, lo ≤ i ∧ i < hi ∧ d[i]? = some x ∧ x ≠ 0)
+    (hhdr : lo = (writeAll P bufs1 0).length → ∀ y, d[lo]? = some y → y ≠ 0 → ∀ h' o',
+      nextHeader P d 2 lo = .ok (h', o') → o' + h'.size ≤ d.length → P.crc (slice d o' h'.size) ≠ h'.crc)
+    (k : Nat) : readSome P d (bufs1.length + 1 + k) 0 = (bufs1, true) :=
+  Blue.Log.log_padding_damage_detected g bufs1 b bufs2 hsz hb d lo hi hmem hag hnz hhdr k
+
+/-- **log_damage_detected_or_prefix**: whichever region of one append was damaged (`LogRegion`:
+    payload, header or padding, each with its hypotheses) — the reader delivers exactly the batches
+    appended before it and reports an error, `LogIterator` drained / `log_to_builder` /
+    `log_to_setsum` fail; or (a header still decoding to what was written) the file is read and
+    replayed exactly as the pristine log.  Never a different batch. -/
+theorem log_damage_detected_or_prefix (g : Good P) (bufs1 : List (List Nat)) (b : List Nat) (bufs2 : List (List Nat))
+    (hsz : ∀ x ∈ bufs1, x.length ≤ P.tableFull) (hb : b.length ≤ P.tableFull)
+    (d : List Nat) (hlen : d.length = (writeAll P (bufs1 ++ b :: bufs2) 0).length)
+    (hr : LogRegion P bufs1 b bufs2 d) :
+    ((∀ k, readSome P d (bufs1.length + 1 + k) 0 = (bufs1, true))
+      ∧ drain P d = deliver bufs1 true ∧ logToBuilder P d = .readerError ∧ logToSetsumOk P d = false)
+    ∨ ((∀ n, readSome P d n 0 = readSome P (writeAll P (bufs1 ++ b :: bufs2) 0) n 0)
+      ∧ drain P d = drain P (writeAll P (bufs1 ++ b :: bufs2) 0)
+      ∧ logToBuilder P d = logToBuilder P (writeAll P (bufs1 ++ b :: bufs2) 0)
+      ∧ logToSetsumOk P d = logToSetsumOk P (writeAll P (bufs1 ++ b :: bufs2) 0)) :=
+  Blue.Log.log_damage_detected_or_prefix g bufs1 b bufs2 hsz hb d hlen hr
+
+/-- the frames `framesOf` names are where the writer put them -/
+theorem append_layout_is_framesOf (g : Good P) (pos : Nat) (buf : List Nat) :
+    appendAt P 2 pos buf = layFrames P pos (framesOf P 2 pos buf) :=
+  Blue.Log.appendAt_eq_layFrames g pos buf
+
+/-- **the real header's checksum field needs no hypothesis**: any four other bytes in it decode to
+    the same size and discriminant and another checksum value, which the payload does not have -/
+theorem crc_field_damage_detected (crc : List Nat → Nat) (hcrc32 : ∀ l, crc l < 4294967296)
+    (bufs1 : List (List Nat)) (b : List Nat) (bufs2 : List (List Nat))
+    (hsz : ∀ x ∈ bufs1, x.length ≤ (realParams crc).tableFull) (hb : b.length ≤ (realParams crc).tableFull)
+    (d : List Nat) (hlen : d.length = (writeAll (realParams crc) (bufs1 ++ b :: bufs2) 0).length)
+    (s disc : Nat) (p : List Nat)
+    (hmem : (s, disc, p) ∈ framesOf (realParams crc) 2 (writeAll (realParams crc) bufs1 0).length b)
+    (hag : ∀ i, i < payOff (realParams crc) s disc p - 4 ∨ payOff (realParams crc) s disc p ≤ i →
+      d[i]? = (writeAll (realParams crc) (bufs1 ++ b :: bufs2) 0)[i]?)
+    (hdiff : ∃ i, payOff (realParams crc) s disc p - 4 ≤ i ∧ i < payOff (realParams crc) s disc p
+      ∧ d[i]? ≠ (writeAll (realParams crc) (bufs1 ++ b :: bufs2) 0)[i]?)
+    (hbyte : ∀ i x, payOff (realParams crc) s disc p - 4 ≤ i → i < payOff (realParams crc) s disc p →
+      d[i]? = some x → x < 256) (k : Nat) :
+    readSome (realParams crc) d (bufs1.length + 1 + k) 0 = (bufs1, true) :=
+  Blue.Log.crc_field_damage_detected crc hcrc32 bufs1 b bufs2 hsz hb d hlen s disc p hmem hag hdiff hbyte k
+
+/-- **the discriminant is outside the checksum** (toy parameters; non-vacuity of the hypotheses of
+    `log_header_damage_detected` except `hdisc`, and the reason `hdisc` is there): a `FIRST`
+    discriminant overwritten with `WHOLE` makes the reader deliver the first part of the batch as a
+    batch before it reports the error at the orphaned `SECOND` frame -/
+theorem disc_outside_checksum :
+    framesOf toyFrameParams 2 0 toyBatch = [(0, FIRST, toyBatch.take 12), (16, SECOND, toyBatch.drop 12)]
+    ∧ payOff toyFrameParams 0 FIRST (toyBatch.take 12) = 4
+    ∧ toyLogDisc.length = toyLog.length
+    ∧ (∀ i, i < 0 ∨ 4 ≤ i → toyLogDisc[i]? = toyLog[i]?)
+    ∧ nextHeader toyFrameParams toyLogDisc 2 0
+        = .ok (⟨12, WHOLE, toyFrameParams.crc (toyBatch.take 12)⟩, 4)
+    ∧ readSome toyFrameParams toyLog 3 0 = ([toyBatch], false)
+    ∧ readSome toyFrameParams toyLogDisc 3 0 = ([toyBatch.take 12], true) :=
+  Blue.Log.disc_outside_checksum_example
+
+/-- **padding turned into a frame** (toy parameters): two padding bytes overwritten so that the run
+    spells an empty `WHOLE` frame with a matching checksum — the reader delivers an invented empty
+    batch and goes on; `hhdr` of `log_padding_damage_detected` cannot be dropped -/
+theorem padding_injection :
+    padRunsOf toyFrameParams 12 (framesOf toyFrameParams 2 12 [9, 10, 11]) = [(12, 16)]
+    ∧ (writeAll toyFrameParams [[1, 2, 3, 4, 5, 6, 7, 8]] 0).length = 12
+    ∧ nextHeader toyFrameParams toyLogPadInjected 2 12 = .ok (⟨0, WHOLE, 0⟩, 16)
+    ∧ toyFrameParams.crc (slice toyLogPadInjected 16 0) = 0
+    ∧ readSome toyFrameParams toyLogPad 3 0 = ([[1, 2, 3, 4, 5, 6, 7, 8], [9, 10, 11]], false)
+    ∧ readSome toyFrameParams toyLogPadInjected 4 0 = ([[1, 2, 3, 4, 5, 6, 7, 8], [], [9, 10, 11]], false) :=
+  Blue.Log.padding_injection_example
+
+/-- **the discriminant swapped from `FIRST` to `WHOLE`** (the case `hdisc` excludes), at the level
+    the code's API has — `LogIterator::next` hands out entries, not batches: the reader delivers a
+    prefix of the genuine ENTRIES and then an error, `log_to_builder` and `log_to_setsum` fail.  (At
+    the level of batch buffers the first part of the split batch is delivered as a buffer:
+    `log_first_as_whole_fragment`; its entries are a prefix of the batch's entries because the
+    decoders are prefix-monotone, `batch_fragment_entries_prefix`.) -/
+theorem log_first_as_whole_entries_prefix (g : Good P) (bufs1 : List (List Nat)) (b : List Nat) (bufs2 : List (List Nat))
+    (hsz : ∀ x ∈ bufs1, x.length ≤ P.tableFull) (hb : b.length ≤ P.tableFull)
+    (d : List Nat) (hlen : d.length = (writeAll P (bufs1 ++ b :: bufs2) 0).length)
+    (s : Nat) (p : List Nat) (hmem : (s, FIRST, p) ∈ framesOf P 2 (writeAll P bufs1 0).length b)
+    (hag : ∀ i, i < s ∨ payOff P s FIRST p ≤ i → d[i]? = (writeAll P (bufs1 ++ b :: bufs2) 0)[i]?)
+    (hnc : ∀ h' o', nextHeader P d 2 s = .ok (h', o') → o' + h'.size ≤ d.length →
+      (o' = payOff P s FIRST p ∧ h'.size = p.length ∧ h'.crc = P.crc p) ∨ P.crc (slice d o' h'.size) ≠ h'.crc)
+    (hne : nextHeader P d 2 s ≠ .eof)
+    (hW : ∀ h' o', nextHeader P d 2 s = .ok (h', o') → h'.disc = WHOLE)
+    (hclean : ∀ x ∈ bufs1 ++ [b], (batchEntries (x.length + 1) x).2 = false) :
+    (drain P d).2 = true ∧ (∃ more, (deliver (bufs1 ++ [b]) false).1 = (drain P d).1 ++ more)
+    ∧ logToBuilder P d = .readerError ∧ logToSetsumOk P d = false :=
+  Blue.Log.log_first_as_whole_entries_prefix g bufs1 b bufs2 hsz hb d hlen s p hmem hag hnc hne hW hclean
+
+/-- … at the level of batch buffers: detected at once, or the fragment and then the error -/
+theorem log_first_as_whole_fragment (g : Good P) (bufs1 : List (List Nat)) (b : List Nat) (bufs2 : List (List Nat))
+    (hsz : ∀ x ∈ bufs1, x.length ≤ P.tableFull) (hb : b.length ≤ P.tableFull)
+    (d : List Nat) (hlen : d.length = (writeAll P (bufs1 ++ b :: bufs2) 0).length)
+    (s : Nat) (p : List Nat) (hmem : (s, FIRST, p) ∈ framesOf P 2 (writeAll P bufs1 0).length b)
+    (hag : ∀ i, i < s ∨ payOff P s FIRST p ≤ i → d[i]? = (writeAll P (bufs1 ++ b :: bufs2) 0)[i]?)
+    (hnc : ∀ h' o', nextHeader P d 2 s = .ok (h', o') → o' + h'.size ≤ d.length →
+      (o' = payOff P s FIRST p ∧ h'.size = p.length ∧ h'.crc = P.crc p) ∨ P.crc (slice d o' h'.size) ≠ h'.crc)
+    (hne : nextHeader P d 2 s ≠ .eof)
+    (hW : ∀ h' o', nextHeader P d 2 s = .ok (h', o') → h'.disc = WHOLE) :
+    ∃ n, p = b.take n ∧ ((∀ k, readSome P d (bufs1.length + 1 + k) 0 = (bufs1, true))
+                        ∨ (∀ k, readSome P d (bufs1.length + 2 + k) 0 = (bufs1 ++ [b.take n], true))) :=
+  Blue.Log.log_first_as_whole_fragment g bufs1 b bufs2 hsz hb d hlen s p hmem hag hnc hne hW
+
+/-- the entries decoded from a fragment of a batch buffer are a prefix of the batch's entries -/
+theorem batch_fragment_entries_prefix (b : List Nat) (n F F' : Nat) (hF' : b.length < F') :
+    ∃ more, (batchEntries F' b).1 = (batchEntries F (b.take n)).1 ++ more :=
+  Blue.Damage.batchEntries_take b n F F' hF'
+
+/-- **the discriminant of the LAST append's `WHOLE` frame turned into anything else** (`FIRST`
+    included): detected.  (With further appends behind it a `WHOLE` turned `FIRST` runs into the next
+    append — an error in every case of the run; not a theorem, see `partial`.) -/
+theorem log_whole_not_whole_at_eof_detected (g : Good P) (bufs1 : List (List Nat)) (b : List Nat)
+    (hsz : ∀ x ∈ bufs1, x.length ≤ P.tableFull) (hb : b.length ≤ P.tableFull)
+    (d : List Nat) (hlen : d.length = (writeAll P (bufs1 ++ [b]) 0).length)
+    (s : Nat) (p : List Nat) (hmem : (s, WHOLE, p) ∈ framesOf P 2 (writeAll P bufs1 0).length b)
+    (hag : ∀ i, i < s ∨ payOff P s WHOLE p ≤ i → d[i]? = (writeAll P (bufs1 ++ [b]) 0)[i]?)
+    (hnc : ∀ h' o', nextHeader P d 2 s = .ok (h', o') → o' + h'.size ≤ d.length →
+      (o' = payOff P s WHOLE p ∧ h'.size = p.length ∧ h'.crc = P.crc p) ∨ P.crc (slice d o' h'.size) ≠ h'.crc)
+    (hne : nextHeader P d 2 s ≠ .eof)
+    (hchg : ∀ h' o', nextHeader P d 2 s = .ok (h', o') → h'.disc ≠ WHOLE) (k : Nat) :
+    readSome P d (bufs1.length + 1 + k) 0 = (bufs1, true) :=
+  Blue.Log.log_whole_not_whole_at_eof_detected g bufs1 b hsz hb d hlen s p hmem hag hnc hne hchg k
+
+end logdamage
+
+/-- **a limit of the format** (finding D-29): zeros from a header-length position up to a block
+    boundary at most `HEADER_MAX_SIZE` bytes further on are padding to the reader, whatever was there
+    before -/
+theorem zero_run_is_padding (P : Blue.Log.Params) (file : List Nat) (fuel off : Nat) (h0 : file[off]? = some 0)
+    (hd : Blue.Log.trueUp P (off + 1) - (off + 1) ≤ P.H)
+    (hz : Blue.Log.padZero file (off + 1) (Blue.Log.trueUp P (off + 1)) = true) :
+    Blue.Log.nextHeader P file (fuel + 1) off = Blue.Log.nextHeader P file fuel (Blue.Log.trueUp P (off + 1)) :=
+  Blue.Damage.zero_run_is_padding P file fuel off h0 hd hz
+
+/-- … so a whole frame inside that window overwritten with zeros byte for byte is lost without a
+    trace (toy parameters: the reader hands out the header of the frame on the boundary) -/
+theorem zeroed_frame_is_padding :
+    Blue.Log.nextHeader Blue.Damage.toyParams Blue.Damage.toyFrameZeroed 2 44 = .ok (⟨0, 1, 0⟩, 66) :=
+  Blue.Damage.zeroed_frame_is_padding
+
+
+/-! ## manifest: one line replaced by any bytes (`Blue.Damage.iterate`, the reader that follows
+    `BufRead::lines`) -/
+section manidamage
+open Blue.Mani Blue.Damage
+variable (crc : List Nat → Nat)
+
+/-- what the writer wrote is read back edit for edit by the faithful reader -/
+theorem manifest_items_roundtrip (hcrc : CrcOk crc) (es : List Edit) (hok : ∀ e ∈ es, e.Ok ∧ e.Canon) :
+    items crc (es.flatMap (encodeEdit crc)) = es.map .edit
+    ∧ openState crc (es.flatMap (encodeEdit crc)) = .ok (es.foldl applyEdit ⟨[], []⟩) :=
+  Blue.Damage.items_roundtrip crc hcrc es hok
+
+/-- **manifest_damage_detected_or_prefix**: line `j` of transaction `e` (an item line or the
+    separator) replaced by ANY bytes `T'` without a newline (any length).  `hnc` — the only
+    hypothesis about the checksum: the line does not carry the CRC of its own text; `hsep`: it is not
+    the separator.  The iterator returns exactly the edits before `e`, then one error, then nothing
+    (every error poisons it): `e` is never delivered, in whole or in part, never fused with its
+    neighbour, and no later edit is ever returned; `Manifest::open` fails. -/
+theorem manifest_damage_detected_or_prefix (hcrc : CrcOk crc) (es1 : List Edit) (e : Edit) (es2 : List Edit)
+    (hok1 : ∀ x ∈ es1, x.Ok ∧ x.Canon) (hoke : e.Ok) (j : Nat) (hj : j < (editLines e).length)
+    (T' : List Nat) (hnl : ∀ b ∈ T', b ≠ 10)
+    (hnc : LineCrcDetects crc (stripCr T')) (hsep : stripCr T' ≠ SEP) (d : List Nat)
+    (hd : d = (linesOf es1 ++ (editLines e).take j).flatMap (Ln.bytes crc) ++ T' ++ [10]
+            ++ ((editLines e).drop (j + 1) ++ linesOf es2).flatMap (Ln.bytes crc)) :
+    ∃ err, err.isErr = true ∧ items crc d = es1.map .edit ++ [err]
+      ∧ editsBeforeError (items crc d) = (es1, some err) ∧ openState crc d = .error err :=
+  Blue.Damage.manifest_damage_detected_or_prefix crc hcrc es1 e es2 hok1 hoke j hj T' hnl hnc hsep d hd
+
+/-- … and for a damaged LAST line without terminator (`BufRead::lines` strips no carriage return
+    there — where `iterate` and the older `readEdits` differ: `unterminated_cr_differs`) -/
+theorem manifest_damage_detected_last_line (hcrc : CrcOk crc) (es1 : List Edit) (e : Edit)
+    (hok1 : ∀ x ∈ es1, x.Ok ∧ x.Canon) (hoke : e.Ok) (j : Nat) (hj : j < (editLines e).length)
+    (T' : List Nat) (hne : T' ≠ []) (hnl : ∀ b ∈ T', b ≠ 10)
+    (hnc : LineCrcDetects crc T') (hsep : T' ≠ SEP) (d : List Nat)
+    (hd : d = (linesOf es1 ++ (editLines e).take j).flatMap (Ln.bytes crc) ++ T') :
+    ∃ err, err.isErr = true ∧ items crc d = es1.map .edit ++ [err]
+      ∧ editsBeforeError (items crc d) = (es1, some err) ∧ openState crc d = .error err :=
+  Blue.Damage.manifest_damage_detected_last_line crc hcrc es1 e hok1 hoke j hj T' hne hnl hnc hsep d hd
+
+/-- **the separator needs no checksum**: any eight other bytes in its place are an error — two
+    transactions never fuse -/
+theorem separator_damage_detected (hcrc : CrcOk crc) (es1 : List Edit) (e : Edit) (es2 : List Edit)
+    (hok1 : ∀ x ∈ es1, x.Ok ∧ x.Canon) (hoke : e.Ok)
+    (T' : List Nat) (hlen : T'.length = 8) (hne : T' ≠ SEP) (hnl : ∀ b ∈ T', b ≠ 10) (d : List Nat)
+    (hd : d = (linesOf es1 ++ (Blue.Mani.items e).map Ln.it).flatMap (Ln.bytes crc) ++ T' ++ [10]
+            ++ (linesOf es2).flatMap (Ln.bytes crc)) :
+    ∃ err, err.isErr = true ∧ items crc d = es1.map .edit ++ [err]
+      ∧ editsBeforeError (items crc d) = (es1, some err) ∧ openState crc d = .error err :=
+  Blue.Damage.separator_damage_detected crc hcrc es1 e es2 hok1 hoke T' hlen hne hnl d hd
+
+/-- **the separator is recognised by equality**: a line that merely starts with it is not a
+    separator (it is `corruption`) — a transaction cannot be split by such a line.  (Tied to the
+    source by `detection_checks_in_source`: `line == TX_SEPARATOR`.) -/
+theorem separator_is_exact (x : List Nat) (hx : x ≠ []) :
+    parseLine crc (SEP ++ x) ≠ .sep ∧ parseLine crc (SEP ++ x) = .corrupt :=
+  ⟨Blue.Damage.sep_is_exact crc x hx, Blue.Damage.sep_prefix_corrupt crc x hx⟩
+
+/-- **a newline overwritten** fuses two lines into one, which must carry the CRC of its own text -/
+theorem newline_damage_detected (hcrc : CrcOk crc) (es : List Edit) (hok : ∀ e ∈ es, e.Ok ∧ e.Canon)
+    (k : Nat) (l1 l2 : Ln) (h1 : (linesOf es)[k]? = some l1) (h2 : (linesOf es)[k + 1]? = some l2)
+    (x : Nat) (hx : x ≠ 10)
+    (hnc : LineCrcDetects crc (stripCr (l1.text crc ++ [x] ++ l2.text crc))) (d : List Nat)
+    (hd : d = apply (es.flatMap (encodeEdit crc))
+            (.over ((((linesOf es).take k).flatMap (Ln.bytes crc)).length + (l1.text crc).length) x)) :
+    ∃ c, c < es.length ∧ (linesOf (es.take c)).length ≤ k ∧ k < (linesOf (es.take (c + 1))).length
+      ∧ (∃ err, err.isErr = true ∧ items crc d = (es.take c).map .edit ++ [err]
+            ∧ editsBeforeError (items crc d) = (es.take c, some err) ∧ openState crc d = .error err) :=
+  Blue.Damage.newline_damage_detected crc hcrc es hok k l1 l2 h1 h2 x hx hnc d hd
+
+/-- … the last newline of the file: no hypothesis (`--------x` is nine bytes) -/
+theorem final_newline_damage_detected (hcrc : CrcOk crc) (es1 : List Edit) (e : Edit)
+    (hok1 : ∀ x ∈ es1, x.Ok ∧ x.Canon) (hoke : e.Ok) (x : Nat) (hx : x ≠ 10) (d : List Nat)
+    (hd : d = apply ((es1 ++ [e]).flatMap (encodeEdit crc))
+            (.over (((es1 ++ [e]).flatMap (encodeEdit crc)).length - 1) x)) :
+    ∃ err, err.isErr = true ∧ items crc d = es1.map .edit ++ [err]
+      ∧ editsBeforeError (items crc d) = (es1, some err) ∧ openState crc d = .error err :=
+  Blue.Damage.final_newline_damage_detected crc hcrc es1 e hok1 hoke x hx d hd
+
+/-- **torn_manifest, for the reader that follows `BufRead::lines`**: a MANIFEST cut at any byte
+    reads as a prefix of whole edits, followed by nothing or by exactly one `corruption` -/
+theorem torn_manifest_lines (hcrc : CrcOk crc) (es : List Edit) (hok : ∀ e ∈ es, e.Ok ∧ e.Canon)
+    (hnc : ∀ l ∈ linesOf es, l.NoCollision crc) (m : Nat) :
+    ∃ c, c ≤ es.length
+      ∧ (editsBeforeError (items crc ((es.flatMap (encodeEdit crc)).take m))).1 = es.take c
+      ∧ ((items crc ((es.flatMap (encodeEdit crc)).take m) = (es.take c).map .edit
+            ∧ openState crc ((es.flatMap (encodeEdit crc)).take m) = .ok ((es.take c).foldl applyEdit ⟨[], []⟩))
+          ∨ (items crc ((es.flatMap (encodeEdit crc)).take m) = (es.take c).map .edit ++ [.corrupt]
+            ∧ openState crc ((es.flatMap (encodeEdit crc)).take m) = .error .corrupt)) :=
+  Blue.Damage.torn_manifest_lines crc hcrc es hok hnc m
+
+/-- … and on a manifest of three edits under the real CRC-32C (`NoCollision` decided by kernel
+    evaluation): every cut reads as a prefix of the three edits, followed by nothing or one error -/
+theorem torn_three_edits (m : Nat) :
+    ∃ c, c ≤ 3 ∧ (editsBeforeError (items Blue.Crc32c.crc32c
+            ((es3.flatMap (encodeEdit Blue.Crc32c.crc32c)).take m))).1 = es3.take c
+      ∧ ((items Blue.Crc32c.crc32c ((es3.flatMap (encodeEdit Blue.Crc32c.crc32c)).take m) = (es3.take c).map .edit
+            ∧ openState Blue.Crc32c.crc32c ((es3.flatMap (encodeEdit Blue.Crc32c.crc32c)).take m)
+                = .ok ((es3.take c).foldl applyEdit ⟨[], []⟩))
+          ∨ (items Blue.Crc32c.crc32c ((es3.flatMap (encodeEdit Blue.Crc32c.crc32c)).take m)
+                = (es3.take c).map .edit ++ [.corrupt]
+            ∧ openState Blue.Crc32c.crc32c ((es3.flatMap (encodeEdit Blue.Crc32c.crc32c)).take m) = .error .corrupt)) :=
+  Blue.Damage.torn_three_edits m
+
+/-- **finding D-30, as found** (`itemsAsFound`: the reader before `fixes/mani-nonascii-poisons.diff`,
+    `maniNonAsciiPoisons = 0`): the non-ASCII check returned its error WITHOUT poisoning — after a
+    line that is UTF-8 but not ASCII the next item is an edit made of the rest of the damaged
+    transaction (here it lacks `a`), returned as genuine -/
+theorem non_ascii_line_not_poisoned :
+    itemsAsFound crc0 nonAsciiManifest = [.notAscii, .edit ⟨[], [[98]], []⟩] :=
+  Blue.Damage.non_ascii_line_not_poisoned
+
+/-- … repaired: the error ends the iteration -/
+theorem non_ascii_line_poisons :
+    items crc0 nonAsciiManifest = [.notAscii] ∧ openState crc0 nonAsciiManifest = .error .notAscii :=
+  Blue.Damage.non_ascii_line_poisons
+
+/-- the two readers agree up to and including the first error on every input (which is why
+    `Manifest::open` and every caller that stops at the first error never showed the difference),
+    and on all-ASCII input altogether -/
+theorem as_found_agrees_before_error (bs : List Nat) :
+    editsBeforeError (items crc bs) = editsBeforeError (itemsAsFound crc bs)
+    ∧ ((∀ b ∈ bs, b < 128) → items crc bs = itemsAsFound crc bs) :=
+  ⟨Blue.Damage.editsBeforeError_asFound crc bs, Blue.Damage.items_eq_asFound_of_ascii crc bs⟩
+
+/-- where `Blue.Mani.readEdits` (C13's reader) and `iterate` differ: a carriage return at the end of
+    an unterminated last line -/
+theorem unterminated_cr_differs :
+    readEdits crc0 10 [48, 48, 48, 48, 48, 48, 48, 48, 43, 97, 10, 45, 45, 45, 45, 45, 45, 45, 45, 13] Edit.empty
+      = ([⟨[], [[97]], []⟩], false)
+    ∧ items crc0 [48, 48, 48, 48, 48, 48, 48, 48, 43, 97, 10, 45, 45, 45, 45, 45, 45, 45, 45, 13] = [.corrupt] :=
+  Blue.Damage.unterminated_cr_differs
+
+end manidamage
+
 /-! ## non-vacuity of the hypotheses -/
 
-/-- `Refines`, same entries, same length: satisfied by a table and itself -/
+/-- `Refines`, same entries, same length: satisfied by a table and itself; a proper instance (block 0
+    fails its CRC, the other blocks load as before) is `sst_region_witnesses` / `data_block_flip_is_detected` -/
 example (crc : List Nat → Nat) (t : Opened) : Refines (t.loadIdx crc) (t.loadIdx crc) := fun _ _ h => h
 
 /-- `final_block_cases` with `f' = f`: the hypotheses on the first `a` bytes hold trivially -/
@@ -350,13 +894,28 @@ example : Blue.Log.nextHeader ⟨64, 19, 100, fun _ => [], fun _ => none, fun _ 
 /-- a flip below `a` is `Below a` -/
 example : (Blue.Damage.Dmg.flip 10 0).Below 197 := by show 10 < 197; decide
 
+/-- `NoCollisionAt` holds for an undamaged frame; for damaged ones see `sst_region_witnesses` -/
+example (crc : List Nat → Nat) (f : List Nat) (m : BlockMeta) : NoCollisionAt crc f f m :=
+  noCollisionAt_same crc f f m rfl
+
+/-- `AgreeOutside` -/
+example (f : List Nat) : AgreeOutside f f 3 7 := agreeOutside_refl f 3 7
+
+/-- `LineCrcDetects`: a line whose eight digits are not the checksum of the rest (toy checksum 0) -/
+example : Blue.Damage.LineCrcDetects (fun _ => 0) [49, 48, 48, 48, 48, 48, 48, 48, 43, 97] := by decide
+
+/-- `Edit.Canon` holds for what `Edit::add` builds in sorted order -/
+example : (⟨[], [[97], [98]], []⟩ : Blue.Mani.Edit).Canon := by decide
+
 end Blue.Props.C09
 
 #print axioms Blue.Props.C09.constants_from_source
 #print axioms Blue.Props.C09.sst_reads_are_guarded
 #print axioms Blue.Props.C09.open_guarded
 #print axioms Blue.Props.C09.block_load_is_checked
-#print axioms Blue.Props.C09.open_sizes_bounded
+#print axioms Blue.Props.C09.open_buffers_bounded
+#print axioms Blue.Props.C09.data_block_buffers_bounded
+#print axioms Blue.Props.C09.loaded_block_in_file
 #print axioms Blue.Props.C09.block_damage_detected
 #print axioms Blue.Props.C09.refines_of_no_collision
 #print axioms Blue.Props.C09.sst_single_burst
@@ -379,3 +938,43 @@ end Blue.Props.C09
 #print axioms Blue.Props.C09.d11_as_found_vs_repaired
 #print axioms Blue.Props.C09.torn_manifest
 #print axioms Blue.Props.C09.mani_line_guarded
+#print axioms Blue.Props.C09.block_frame_damage
+#print axioms Blue.Props.C09.sst_data_frame_damage
+#print axioms Blue.Props.C09.sst_data_region_damage
+#print axioms Blue.Props.C09.sst_index_frame_damage
+#print axioms Blue.Props.C09.sst_filter_frame_damage
+#print axioms Blue.Props.C09.sst_tail_cases
+#print axioms Blue.Props.C09.sst_truncated_below_filter
+#print axioms Blue.Props.C09.sst_damage_detected_or_harmless
+#print axioms Blue.Props.C09.sst_tail_replaced
+#print axioms Blue.Props.C09.sst_truncated_rejected_or_same
+#print axioms Blue.Props.C09.sst_extended_rejected_or_same
+#print axioms Blue.Props.C09.sst_region_witnesses
+#print axioms Blue.Props.C09.detection_checks_in_source
+#print axioms Blue.Props.C09.log_payload_damage_detected
+#print axioms Blue.Props.C09.log_header_damage_detected
+#print axioms Blue.Props.C09.log_padding_damage_detected
+#print axioms Blue.Props.C09.log_damage_detected_or_prefix
+#print axioms Blue.Props.C09.append_layout_is_framesOf
+#print axioms Blue.Props.C09.crc_field_damage_detected
+#print axioms Blue.Props.C09.disc_outside_checksum
+#print axioms Blue.Props.C09.padding_injection
+#print axioms Blue.Props.C09.manifest_items_roundtrip
+#print axioms Blue.Props.C09.manifest_damage_detected_or_prefix
+#print axioms Blue.Props.C09.manifest_damage_detected_last_line
+#print axioms Blue.Props.C09.separator_damage_detected
+#print axioms Blue.Props.C09.separator_is_exact
+#print axioms Blue.Props.C09.newline_damage_detected
+#print axioms Blue.Props.C09.final_newline_damage_detected
+#print axioms Blue.Props.C09.torn_manifest_lines
+#print axioms Blue.Props.C09.non_ascii_line_not_poisoned
+#print axioms Blue.Props.C09.unterminated_cr_differs
+#print axioms Blue.Props.C09.zero_run_is_padding
+#print axioms Blue.Props.C09.zeroed_frame_is_padding
+#print axioms Blue.Props.C09.torn_three_edits
+#print axioms Blue.Props.C09.non_ascii_line_poisons
+#print axioms Blue.Props.C09.as_found_agrees_before_error
+#print axioms Blue.Props.C09.log_first_as_whole_entries_prefix
+#print axioms Blue.Props.C09.log_first_as_whole_fragment
+#print axioms Blue.Props.C09.batch_fragment_entries_prefix
+#print axioms Blue.Props.C09.log_whole_not_whole_at_eof_detected
